@@ -159,3 +159,35 @@ def idx(form, shape, i, j):
     if form == "VD":
         return i
     return i + j * r
+
+
+def extract_dispatch_fn(src, name, rel):
+    """Text of the private dispatch function `name`, re-declared as `vp_<name>` taking `&[Value]` instead of `Vec<Value>`.
+
+    Why: a `Vec<Value>` argument lives in a heap buffer that CBMC models as bytes; the enum discriminants read back from it are
+    no longer constants for symbolic execution, which then explores every `Value` variant in the error arm and in the drop glue
+    of the vector (ValueKind::clone / drop recursion: no verdict in 20 minutes).  The body is copied verbatim from /repo at
+    generation time; the only edits are the parameter type and `ixes.as_slice()` -> `ixes` (a slice of a slice).  Returns
+    (rust_text, sha256_of_original_item)."""
+    import hashlib
+    m = re.search(r"^fn\s+%s\s*\(([^)]*)\)\s*->\s*MResult<Box<dyn MechFunction>>\s*\{" % re.escape(name), src, re.M)
+    if not m:
+        raise SystemExit("INCONCLUSIVE: dispatch function %s not found in %s" % (name, rel))
+    i = m.end() - 1
+    depth, j = 0, i
+    while True:
+        ch = src[j]
+        if ch == "{":
+            depth += 1
+        elif ch == "}":
+            depth -= 1
+            if depth == 0:
+                break
+        j += 1
+    item = src[m.start():j + 1]
+    params = m.group(1).replace("Vec<Value>", "[Value]")
+    if "&[Value]" not in params:
+        params = params.replace("[Value]", "&[Value]")
+    body = src[i:j + 1].replace("ixes.as_slice()", "ixes")
+    text = "  pub fn vp_%s(%s) -> MResult<Box<dyn MechFunction>> %s\n" % (name, params, body)
+    return text, hashlib.sha256(item.encode()).hexdigest()
